@@ -74,13 +74,22 @@ def _run_model(mod, drv, case, impl):
     return mod.run_model(drv, case, impl) if n >= 3 else mod.run_model(drv, case)
 
 
+_ENVIRONMENTAL = (OSError, MemoryError, TimeoutError)
+
+
 def _impl_wrapper(args):
     modname, case = args
     mod = importlib.import_module(modname)
     try:
         return mod.run_impl(case)
-    except Exception as e:  # harness error, not an implementation exception
+    except _ENVIRONMENTAL as e:  # disk, memory, time: says nothing about the code -> exit 2
         return {"_harness_error": "".join(traceback.format_exception_only(type(e), e)).strip(),
+                "_tb": traceback.format_exc()[-2000:]}
+    except Exception as e:
+        # the observation of the real code could not be made (the code raised where the property module
+        # does not expect it, or an attribute / call form the harness relies on is gone): the
+        # correspondence is broken for this case; it is reported as such, with the case as the replay
+        return {"_observation_error": "".join(traceback.format_exception_only(type(e), e)).strip(),
                 "_tb": traceback.format_exc()[-2000:]}
 
 
@@ -91,23 +100,41 @@ def replay(mod, path):
         print(json.dumps(payload, indent=1)[:4000])
         print("replay file names a broken obligation and has no concrete case")
         return 1
-    impl = mod.run_impl(case)
-    fails = mod.predicates(case, impl)
     print("case:", json.dumps(case, default=str)[:2000])
+    try:
+        impl = mod.run_impl(case)
+    except _ENVIRONMENTAL:
+        raise
+    except Exception as e:
+        print("OBSERVATION ERROR (the real code could not be observed on this case):", repr(e))
+        return 1
+    fails = mod.predicates(case, impl)
     print("implementation:", json.dumps(impl, default=str)[:2000])
+    dis = []
+    driver_ok = True
     try:
         drv = core.Driver()
         model = _run_model(mod, drv, case, impl)
         drv.close()
         print("model:", json.dumps(model, default=str)[:2000])
-        dis = mod.compare(case, impl, model)
+        dis = [d for d in mod.compare(case, impl, model) if not d.startswith("TIE:")]
         for d in dis:
             print("DISAGREEMENT:", d)
     except Exception as e:
+        driver_ok = False
         print("model driver unavailable:", e)
+    known = core.load_known()
+    new = []
     for f in fails:
-        print("FAILS:", f["clause"], "-", f["detail"])
-    return 1 if fails else 0
+        e = core.match_known(mod.ID if hasattr(mod, "ID") else payload.get("property", ""), f["key"], known)
+        if e is not None:
+            print("KNOWN-FINDING:", f["clause"], "-", f["detail"])
+        else:
+            new.append(f)
+            print("FAILS:", f["clause"], "-", f["detail"])
+    if new or dis:
+        return 1
+    return 0 if driver_ok else 2
 
 
 def main(argv):
@@ -135,6 +162,9 @@ def main(argv):
     notes = []
 
     # 1. translator ---------------------------------------------------------
+    # (translator and build write into the Lean project: serialised between concurrent checks)
+    _lock = core.lean_lock()
+    _lock.__enter__()
     if hasattr(mod, "regenerate"):
         try:
             mod.regenerate()
@@ -155,6 +185,8 @@ def main(argv):
         broken.append({"kind": "build", "what": " and ".join(failed) + " does not build"
                        + (" (regeneration tie: a generated formula no longer equals the hand model)"
                           if any(".GenTie." in f for f in failed) else ""), "log": log[-3000:]})
+
+    _lock.__exit__(None, None, None)
 
     # 3. audit ----------------------------------------------------------------
     # entries with strength "monitored" name clauses of the property that have NO theorem (decided by
@@ -196,13 +228,19 @@ def main(argv):
     seen = set()
     nontrivial = 0
     harness_errors = []
+    observation_errors = []
+    compared = 0
     samples = []
     tie_ambiguous = 0
 
     def process(case, impl):
-        nonlocal nontrivial, tie_ambiguous
+        nonlocal nontrivial, tie_ambiguous, compared
         if isinstance(impl, dict) and "_harness_error" in impl:
             harness_errors.append((case, impl))
+            return
+        if isinstance(impl, dict) and "_observation_error" in impl:
+            observation_errors.append({"case": case, "what": [impl["_observation_error"]],
+                                       "tb": impl.get("_tb", "")})
             return
         h = _case_hash(case)
         first = h not in seen
@@ -215,7 +253,15 @@ def main(argv):
             nontrivial += 1
         if len(samples) < 3 and nt:
             samples.append({"case": case, "impl": _short(impl)})
-        for f in mod.predicates(case, impl):
+        try:
+            fs = list(mod.predicates(case, impl))
+        except _ENVIRONMENTAL:
+            raise
+        except Exception as e:
+            observation_errors.append({"case": case, "what": ["predicates could not be evaluated: " + repr(e)],
+                                       "tb": traceback.format_exc()[-2000:]})
+            fs = []
+        for f in fs:
             f.setdefault("case", case)
             e = core.match_known(prop_id, f["key"], known)
             if e is not None:
@@ -228,6 +274,8 @@ def main(argv):
             except Exception as e:
                 disagreements.append({"case": case, "what": ["model driver error: " + repr(e)]})
                 return
+            if not (isinstance(model, dict) and model.get("skip")):
+                compared += 1
             dis = mod.compare(case, impl, model)
             amb = [d for d in dis if d.startswith("TIE:")]
             tie_ambiguous += len(amb)
@@ -254,6 +302,12 @@ def main(argv):
         broken.append({"kind": "correspondence",
                        "what": f"{len(disagreements)} of {evaluations} cases: model and implementation differ",
                        "first": disagreements[0]})
+    if observation_errors:
+        broken.append({"kind": "correspondence",
+                       "what": f"{len(observation_errors)} of {evaluations} cases: the real code could not be observed "
+                               f"({observation_errors[0]['what'][0][:300]})",
+                       "first": {k: v for k, v in observation_errors[0].items() if k != "tb"},
+                       "log": observation_errors[0].get("tb", "")})
 
     # 5. failing-input search when a tie/obligation is broken and nothing concrete yet
     searched = 0
@@ -267,11 +321,14 @@ def main(argv):
     if drv is not None:
         drv.close()
 
-    if harness_errors and not failures and not broken:
+    no_verdict = bool(harness_errors and not failures and not broken)
+    if harness_errors:
         case, impl = harness_errors[0]
-        print("harness error (not a verdict):", impl["_harness_error"], file=sys.stderr)
+        print(f"harness error on {len(harness_errors)} case(s)" + (" (not a verdict):" if no_verdict else ":"),
+              impl["_harness_error"], file=sys.stderr)
         print(impl.get("_tb", ""), file=sys.stderr)
-        return 2
+        notes.append(f"HARNESS ERROR on {len(harness_errors)} case(s): {impl['_harness_error'][:300]}"
+                     + (" - this run gives NO verdict (exit 2)" if no_verdict else ""))
 
     # 6. report -----------------------------------------------------------------
     wall = time.time() - t0
@@ -292,7 +349,8 @@ def main(argv):
             "broken": broken, "searched_extra_cases": searched,
             "note": "a theorem, the translator or the model/implementation correspondence no longer "
                     "checks and no input was found on which the property itself fails",
-            "case": (disagreements[0]["case"] if disagreements else None)})
+            "case": (disagreements[0]["case"] if disagreements
+                     else observation_errors[0]["case"] if observation_errors else None)})
         violation_lines.append(f"VIOLATION property={prop_id} replay={path} no-failing-input-found")
     for kid, (e, f) in known_hits.items():
         print(f"KNOWN-FINDING: property={prop_id} {e['what']}")
@@ -325,6 +383,8 @@ def main(argv):
             "theorems": clauses,
             "programs": evaluations,
             "disagreements_checked": len(disagreements),
+            "cases_compared_with_model": compared,
+            "observation_errors": len(observation_errors),
             "tie_ambiguous": tie_ambiguous,
             "evaluations": evaluations + searched,
             "distinct_nontrivial": nontrivial,
@@ -351,6 +411,8 @@ def main(argv):
     print(f"{prop_id} {tier}: theorems {discharged}/{len(thms)}, cases {evaluations}"
           f" (+{searched} search), disagreements {len(disagreements)}, "
           f"failures {len(by_key)}, known {len(known_hits)}, {wall:.1f}s")
+    if no_verdict:
+        return 2
     return rc
 
 
